@@ -94,11 +94,33 @@ class Clo:
 
 
 class Seq:
-    """bounded sequence (slice / Vec contents): elems[i] is meaningful iff i < n"""
-    __slots__ = ('elems', 'n', 'ety')
+    """bounded sequence (slice / Vec contents).  Element i exists iff pres[i]; for prefix
+    sequences pres[i] == (i < n).  After Vec::retain the sequence is no longer a prefix
+    (prefix=False): length = number of present elements, positional indexing unsupported."""
+    __slots__ = ('elems', 'pres', 'ety', 'prefix', '_n')
 
-    def __init__(self, elems, n, ety=None):
-        self.elems, self.n, self.ety = list(elems), n, ety
+    def __init__(self, elems, n=None, ety=None, pres=None):
+        self.elems, self.ety = list(elems), ety
+        if pres is None:
+            self._n = n if n is not None else len(self.elems)
+            self.prefix = True
+            if isinstance(self._n, int):
+                self.pres = [i < self._n for i in range(len(self.elems))]
+            else:
+                self.pres = [simp(self._n > i) for i in range(len(self.elems))]
+        else:
+            self.pres = list(pres)
+            self.prefix = False
+            self._n = None
+
+    @property
+    def n(self):
+        if self._n is None:
+            tot = 0
+            for p in self.pres:
+                tot = tot + If(p, 1, 0)
+            self._n = tot
+        return self._n
 
     def __repr__(self):
         return 'Seq(n=%s,%r)' % (self.n, self.elems)
@@ -238,6 +260,9 @@ class Engine:
         self.log = log
         self.solver_for_pruning = None
         self._const_cache = {}
+        self.slice_cap = None
+        self.feature_model = {}
+        self.valsets = {}
         self._cur_mem = None
         from . import models
         models.install(self)
@@ -280,8 +305,10 @@ class Engine:
             inner = re.sub(r"^&\s*('\w+\s+)?(mut\s+)?", '', ty)
             if mem is None:
                 raise Unsupported('symbolic reference without memory: ' + ty)
-            if inner.startswith('['):
-                raise Unsupported('symbolic slice needs an explicit bound: ' + ty)
+            if inner.startswith('[') and '; ' not in inner:
+                if self.slice_cap is None:
+                    raise Unsupported('symbolic slice needs an explicit bound: ' + ty)
+                return self.sym_slice(name, inner[1:-1], self.slice_cap, mem)
             c = self.new_cell()
             mem[c] = self.sym(name + '.*', inner, mem)
             return Ref(c)
@@ -311,6 +338,18 @@ class Engine:
             return En(ty, d, {}, base=name)
         return Adt(ty, {}, base=name)
 
+    def sym_slice(self, name, ety, cap, mem, as_vec=False):
+        """reference to (or, with as_vec, the value of) a sequence of `cap` symbolic elements
+        with symbolic length 0..cap"""
+        n = z3.Int(name + '.len')
+        self.assume(z3.And(n >= 0, n <= cap), ('rng', name + '.len'))
+        seq = Seq([self.sym('%s[%d]' % (name, i), ety, mem) for i in range(cap)], n, ety)
+        if as_vec:
+            return seq
+        c = self.new_cell()
+        mem[c] = seq
+        return Ref(c)
+
     def new_cell(self):
         return next(self.ncell)
 
@@ -329,8 +368,51 @@ class Engine:
         if self.log:
             self.log('unsupported: ' + why)
 
+    # -- small value sets (keeps products with HTLC counts / weights linear) ------------
+    MAXSET = 96
+
+    def set_range(self, t, lo, hi):
+        if not isinstance(t, int) and hi - lo < self.MAXSET:
+            self.valsets[t.get_id()] = (frozenset(range(lo, hi + 1)), t)
+
+    def set_vals(self, t, vals):
+        if not isinstance(t, int) and len(vals) <= self.MAXSET:
+            self.valsets[t.get_id()] = (frozenset(vals), t)
+
+    def get_vals(self, t):
+        if isinstance(t, int):
+            return frozenset([t])
+        r = self.valsets.get(t.get_id())
+        return r[0] if r else None
+
+    def mul_terms(self, x, y):
+        """x*y, expanded into a case split when one factor has a small known value set"""
+        vx, vy = self.get_vals(x), self.get_vals(y)
+        if isinstance(x, int) or isinstance(y, int):
+            r = x * y
+            if vx and vy and not isinstance(r, int):
+                self.set_vals(r, {p * q for p in vx for q in vy})
+            return r
+        if vx and vy and len(vx) * len(vy) <= self.MAXSET:
+            self_vals = {p * q for p in vx for q in vy}
+        else:
+            self_vals = None
+        for a, b, vb in ((x, y, vy), (y, x, vx)):
+            if vb:
+                vs = sorted(vb)
+                r = a * vs[-1]
+                for k in reversed(vs[:-1]):
+                    r = z3.If(b == k, a * k, r)
+                if self_vals:
+                    self.set_vals(r, self_vals)
+                return r
+        return x * y
+
     # -- integer helpers --------------------------------------------------
     def wrap(self, t, ty):
+        vs = self.get_vals(t) if not isinstance(t, int) else None
+        if vs and self.tmin(ty) <= min(vs) and max(vs) <= self.tmax(ty):
+            return t
         w, s = INT_TYS[ty]
         if isinstance(t, int):
             t %= (1 << w)
@@ -375,6 +457,16 @@ class Engine:
         a, b = zint(a), zint(b)
         return a / b   # z3 Int division is floor for positive divisor; callers use unsigned only
 
+    def arith(self, o, x, y):
+        if o == 'Mul':
+            return self.mul_terms(x, y)
+        r = x + y if o == 'Add' else x - y
+        if not isinstance(r, int):
+            vx, vy = self.get_vals(x), self.get_vals(y)
+            if vx and vy and len(vx) * len(vy) <= 4 * self.MAXSET:
+                self.set_vals(r, {(p + q) if o == 'Add' else (p - q) for p in vx for q in vy})
+        return r
+
     def binop(self, op, a, b, guard, where):
         if isinstance(a, Opaque) or isinstance(b, Opaque):
             self.unsup(guard, 'opaque operand in %s at %s' % (op, where))
@@ -409,15 +501,20 @@ class Engine:
             return B(r)
         if op in ('Add', 'Sub', 'Mul', 'AddUnchecked', 'SubUnchecked', 'MulUnchecked'):
             o = op[:3]
-            r = x + y if o == 'Add' else (x - y if o == 'Sub' else x * y)
+            r = self.arith(o, x, y)
             if op.endswith('Unchecked'):
                 return I(r, ty)
             return I(self.wrap(r, ty), ty)
         if op in ('AddWithOverflow', 'SubWithOverflow', 'MulWithOverflow'):
             o = op[:3]
-            r = x + y if o == 'Add' else (x - y if o == 'Sub' else x * y)
+            r = self.arith(o, x, y)
             ok = self.in_range(r, ty)
-            return Tup([I(self.wrap(r, ty), ty), B(Not(ok) if isinstance(ok, bool) else z3.Not(ok))])
+            vs = self.get_vals(r)
+            if vs and self.tmin(ty) <= min(vs) and max(vs) <= self.tmax(ty):
+                ok = True
+            # `.0` is only observed behind `assert(!.1)` (overflow-checked operator lowering), i.e. on
+            # paths where no overflow happened, so the exact mathematical result can stand for it.
+            return Tup([I(r, ty), B(Not(ok) if isinstance(ok, bool) else z3.Not(ok))])
         if op in ('Div', 'Rem'):
             if s:
                 if isinstance(x, int) and isinstance(y, int):
@@ -539,7 +636,11 @@ class Engine:
         if isinstance(a, I) and isinstance(b, I):
             if is_conc(a.t) and is_conc(b.t) and a.t == b.t:
                 return a
-            return I(If(c, a.t, b.t), a.ty)
+            r = If(c, a.t, b.t)
+            va, vb = self.get_vals(a.t), self.get_vals(b.t)
+            if va and vb and not isinstance(r, int):
+                self.set_vals(r, va | vb)
+            return I(r, a.ty)
         if isinstance(a, B) and isinstance(b, B):
             if is_conc(a.t) and is_conc(b.t) and a.t == b.t:
                 return a
@@ -579,7 +680,10 @@ class Engine:
                 return a
             return Opaque('merge of distinct references')
         if isinstance(a, Seq) and isinstance(b, Seq) and len(a.elems) == len(b.elems):
-            return Seq([self.merge(c, x, y) for x, y in zip(a.elems, b.elems)], If(c, a.n, b.n), a.ety)
+            elems = [self.merge(c, x, y) for x, y in zip(a.elems, b.elems)]
+            if a.prefix and b.prefix:
+                return Seq(elems, If(c, a.n, b.n), a.ety)
+            return Seq(elems, None, a.ety, pres=[If(c, p, q) for p, q in zip(a.pres, b.pres)])
         if isinstance(a, Clo) and isinstance(b, Clo) and a.key == b.key:
             return Clo(a.key, [self.merge(c, x, y) for x, y in zip(a.caps, b.caps)])
         if isinstance(a, Opaque) or isinstance(b, Opaque):
@@ -737,7 +841,9 @@ class Engine:
                 for j in range(len(elems)):
                     upd = self.write_path(elems[j], path[1:], new, mem, guard, where)
                     elems[j] = self.merge(zint(idx) == j, upd, elems[j])
-            return Tup(elems) if isinstance(v, Tup) else Seq(elems, v.n, v.ety)
+            if isinstance(v, Tup):
+                return Tup(elems)
+            return Seq(elems, v.n, v.ety) if v.prefix else Seq(elems, None, v.ety, pres=v.pres)
         raise Unsupported('write projection ' + str(st))
 
 
@@ -1161,6 +1267,19 @@ def _const(self, text, ty_hint=None):
         return I(self.tmax(m.group(1)) if m.group(2) == 'MAX' else self.tmin(m.group(1)), m.group(1))
     if t.startswith('"') or t.startswith('b"'):
         return Opaque('str')
+    if t.startswith('(') and t.endswith(')') and M.match_paren(t, 0) == len(t) - 1:
+        parts = M.split_top(t[1:-1])
+        return Tup([self.const(p[6:] if p.startswith('const ') else p) for p in parts])
+    if t.startswith('[') and t.endswith(']'):
+        inner = t[1:-1]
+        k = M._find_top(inner, '; ')
+        if k >= 0:
+            n = inner[k + 2:].strip()
+            if re.fullmatch(r'\d+', n):
+                v = self.const(inner[:k])
+                return Tup([v] * int(n))
+        else:
+            return Tup([self.const(p) for p in M.split_top(inner)])
     # zero-sized function item / closure:  path::to::fn  or {closure@..}
     if t.startswith('ZeroSized: '):
         t = t[11:].strip()
@@ -1410,3 +1529,22 @@ def _call_closure(self, clo, args, guard, mem):
 
 
 Engine.call_closure = _call_closure
+
+
+def _cond_call_closure(self, clo, args, guard, cond, mem):
+    """call a closure that only runs when `cond` holds (cond is not part of the caller's guard):
+    memory effects are merged in under cond.  Returns result value or DIVERGE."""
+    g = simp(And(guard, cond))
+    if g is False:
+        return DIVERGE
+    if cond is True:
+        return self.call_closure(clo, args, g, mem)
+    snap = dict(mem)
+    res = self.call_closure(clo, args, g, mem)
+    for k in list(mem):
+        if k in snap and mem[k] is not snap[k]:
+            mem[k] = self.merge(cond, mem[k], snap[k])
+    return res
+
+
+Engine.cond_call_closure = _cond_call_closure
